@@ -142,7 +142,13 @@ func GlobFor(r *rand.Rand, s string) string {
 	if r.IntN(4) == 0 {
 		star = strings.Repeat("*", 2+r.IntN(4))
 	}
-	switch r.IntN(7) {
+	switch r.IntN(8) {
+	case 7: // head*tail whose head and tail overlap in s: s starts with head and ends with tail, but is too short for both
+		k, j := cut(r, s), cut(r, s)
+		if j > k {
+			k, j = j, k
+		}
+		return EscapeGlob(s[:k]) + star + EscapeGlob(s[j:])
 	case 0:
 		return star
 	case 1:
